@@ -138,6 +138,7 @@ func unitsRules() lexer.Rules {
 		{Name: "Float", Pattern: `\d+\.\d+(?:[eE][-+]?\d+)?`},
 		{Name: "Int", Pattern: `\d+`},
 		{Name: "Quoted", Pattern: `'(?:\\.|[^'\\])*'`},
+		{Name: "DString", Pattern: `"(?:[^"\\]+|\\.)*"`},
 		{Name: "Tag", Pattern: `</?[a-z]+(?:\s[a-z]+)*>`},
 		{Name: "Ident", Pattern: `[a-zA-Z_\p{L}][\w-]*`},
 		{Name: "Arrow", Pattern: `->|=>|<-|<=>`},
@@ -279,7 +280,7 @@ var coreLexDefs = []*lexDef{
 	{name: "nullable-actions", rules: nullableActionRules, genName: "NullableActions", build: func() lexer.Definition { return mustRules(nullableActionRules()) },
 		corpus: []string{"a (b c) d", "a ( b", "a ) b", "(a (b)) !", "a $ b", ""}},
 	{name: "units", rules: unitsRules, genName: "Units", build: func() lexer.Definition { return mustRules(unitsRules()) },
-		corpus: []string{"10px 12 3.5em 7% 1.5e-3 2rem", "select a-b FROM 'it\\'s' where x<=>y -> z", "<div class> text </div> a..b a...b \\n \\", "x:y z: ; comment\nünï 'open", "10p 1.e 1.5e+ <a  'q\\", "#!/bin/sh -e\n$Émile $école $STRASSE $x @ @@ 0x1F 0Xabcde 0x", ""}},
+		corpus: []string{"10px 12 3.5em 7% 1.5e-3 2rem", "select a-b FROM 'it\\'s' where x<=>y -> z", "<div class> text </div> a..b a...b \\n \\", "x:y z: ; comment\nünï 'open", "10p 1.e 1.5e+ <a  'q\\", "#!/bin/sh -e\n$Émile $école $STRASSE $x @ @@ 0x1F 0Xabcde 0x", "\"\" \"a\\\"b\" \"ünï\\n\" \"open", ""}},
 	{name: "convoluted-backref", rules: convolutedBackrefRules, build: func() lexer.Definition { return mustRules(convolutedBackrefRules()) },
 		corpus: []string{`\\1 \\\1 ; x`, `<ab|cd> w ab x cd y`, `<a|b> a a b <c|c> c`, `\\1 \\1`, `<a|`, ""}},
 	{name: "nested-include", rules: nestedIncludeRules, genName: "NestedInclude", build: func() lexer.Definition { return mustRules(nestedIncludeRules()) },
